@@ -7,7 +7,8 @@ REPO = os.environ.get("IVY_REPO", "/repo")
 LEAN = os.path.join(VERIF, "lean")
 BUILD = os.path.join(VERIF, "build")
 OUT = os.path.join(VERIF, "out")
-EVID = os.path.join(VERIF, "evidence")
+# evidence committed under /verif/evidence only ever describes /repo; runs against a scratch tree (IVY_REPO) write elsewhere
+EVID = os.path.join(VERIF, "evidence") if REPO == "/repo" else os.path.join(VERIF, "out", "evidence-scratch")
 REPLAY_BIN = os.path.join(LEAN, ".lake", "build", "bin", "ivyreplay")
 ALLOWED_AXIOMS = {"propext", "Classical.choice", "Quot.sound"}
 FORBIDDEN = re.compile(r"\b(sorry|admit|native_decide|bv_decide|implemented_by|unsafe)\b|^\s*axiom\s|maxHeartbeats\s+0|@\[extern")
